@@ -722,6 +722,77 @@ pub fn do_op<K: KeyT, V: ValT>(m: &mut Map<K, V>, w: &[&str], chk: &mut Vec<Stri
             let parts: Vec<String> = got.iter().map(|o| match o { Some((k, s, v)) => format!("{}:{}:{}", k, s, v), None => "none".into() }).collect();
             return OutRaw(format!("opts {}", if parts.is_empty() { "-".to_string() } else { parts.join(",") }));
         }
+        // ---------------- leaking iterators / drains / entries (C02) ----------------
+        "forget_drain" => {
+            let take = n(1) as usize;
+            let mut d = m.drain();
+            let mut got = Vec::new();
+            for _ in 0..take {
+                match d.next() {
+                    Some((k, v)) => {
+                        got.push(kvt(&k, &v));
+                        held.push(Box::new((k, v)));
+                    }
+                    None => break,
+                }
+            }
+            std::mem::forget(d);
+            with_ctx(|c| c.forgotten += 1);
+            Out::List(got)
+        }
+        "forget_iter" => {
+            let take = n(1) as usize;
+            let mut it = m.iter_mut();
+            for _ in 0..take {
+                if it.next().is_none() {
+                    break;
+                }
+            }
+            std::mem::forget(it);
+            let hb = m.hasher().clone();
+            let ii = std::mem::replace(m, HashMap::with_hasher_in(hb, Ledger)).into_iter();
+            // an owning iterator leaked part-way: its elements and block are leaked, nothing else happens
+            let mut ii = ii;
+            let mut got = Vec::new();
+            for _ in 0..take {
+                match ii.next() {
+                    Some((k, v)) => {
+                        got.push(kvt(&k, &v));
+                        held.push(Box::new((k, v)));
+                    }
+                    None => break,
+                }
+            }
+            std::mem::forget(ii);
+            with_ctx(|c| c.forgotten += 1);
+            Out::List(got)
+        }
+        "forget_entry" => {
+            let k = n(1);
+            let e = m.entry(K::mk(k, n(2)));
+            let occ = matches!(e, Entry::Occupied(_));
+            std::mem::forget(e);
+            with_ctx(|c| c.forgotten += 1);
+            Out::Bool(occ)
+        }
+        "forget_extractif" => {
+            let take = n(1) as usize;
+            let sel: Vec<u64> = w[2..].iter().map(|s| parse_u64(s)).collect();
+            let mut got = Vec::new();
+            let mut e = m.extract_if(|k, _| sel.contains(&k.id()));
+            for _ in 0..take {
+                match e.next() {
+                    Some((k, v)) => {
+                        got.push(kvt(&k, &v));
+                        held.push(Box::new((k, v)));
+                    }
+                    None => break,
+                }
+            }
+            std::mem::forget(e);
+            with_ctx(|c| c.forgotten += 1);
+            Out::List(got)
+        }
         "len" => Out::Num(m.len() as u128),
         "capacity" => Out::Num(m.capacity() as u128),
         "allocsize" => Out::Num(m.allocation_size() as u128),
@@ -915,6 +986,10 @@ pub fn run_map<K: KeyT, V: ValT>(lines: &[String], out: &mut String) {
             )
         });
         let mut leak_ok = false;
+        let forgot = w[0].starts_with("forget_");
+        if forgot {
+            leak_ok = true; // the elements still owned by the leaked iterator are leaked, by design
+        }
         match r {
             Ok(o) => {
                 let _ = writeln!(out, "RET {}", o.text());
@@ -992,6 +1067,25 @@ pub fn run_map<K: KeyT, V: ValT>(lines: &[String], out: &mut String) {
                     chk.push(format!("collection holds object serial {} that has already been dropped", s));
                 }
             }
+        }
+        if forgot {
+            // the block owned by a leaked drain / into_iter is leaked with it: forgive exactly the
+            // blocks that neither map owns now (at most one), nothing later
+            let mut owned: Vec<usize> = Vec::new();
+            for d in [m.verif_dump(), other.verif_dump()] {
+                if let Some((_, _, off)) = d.alloc {
+                    owned.push(d.ctrl_addr - off);
+                }
+            }
+            let stray: Vec<usize> = with_ctx(|c| c.blocks.keys().copied().filter(|p| !owned.contains(p)).collect());
+            if stray.len() > 1 {
+                chk.push(format!("{} blocks are owned by nobody after leaking one iterator", stray.len()));
+            }
+            with_ctx(|c| {
+                for p in &stray {
+                    c.blocks.remove(p);
+                }
+            });
         }
         if dump_map(&other) != other_before {
             chk.push("an operation on one map changed its clone / the other map".into());
